@@ -404,6 +404,37 @@ func EqVariants(r *rand.Rand, defs []SDef) []SDef {
 		out = append(out, SDef{Name: fmt.Sprintf("%sPairT%d", d.Name, k), Ann: d.Ann, Body: &SNode{K: KSend, L: cloneS(d.Body), R: cloneS(d.Body)}})
 		break
 	}
+	// an isomorphic copy of the whole environment with one difference in ONE definition: every
+	// copied name that reaches the changed definition differs from its original only deep
+	// below pairs of names
+	if r.Intn(2) == 0 {
+		m := map[string]string{}
+		for _, e := range defs {
+			m[e.Name] = e.Name + "J"
+		}
+		var copies []SDef
+		for _, e := range defs {
+			copies = append(copies, SDef{Name: m[e.Name], Ann: e.Ann, Body: rename(e.Body, m)})
+		}
+		var cs []*SNode
+		collect(copies[r.Intn(len(copies))].Body, func(x *SNode) {
+			if x.K == KUnit || x.K == KSend || x.K == KRecv {
+				cs = append(cs, x)
+			}
+		})
+		if len(cs) > 0 {
+			x := cs[r.Intn(len(cs))]
+			switch x.K {
+			case KUnit:
+				x.K, x.L, x.R = KSend, &SNode{K: KUnit}, &SNode{K: KUnit}
+			case KSend:
+				x.K = KRecv
+			default:
+				x.K = KSend
+			}
+			out = append(out, copies...)
+		}
+	}
 	for k := 0; k < 3; k++ {
 		d := defs[r.Intn(n)]
 		switch r.Intn(6) {
